@@ -496,7 +496,9 @@ func (e *Engine) frameOblig(fr *frame, st *State, p Ptr, nbytes *Term, detail st
 		if m.R == nil {
 			return
 		}
-		in := c.And(c.Eq(p.R, m.R), c.Ule(m.Lo, p.O), c.Ule(c.Add(p.O, nbytes), m.Hi), c.Ule(p.O, c.Add(p.O, nbytes)))
+		// wrap-safe containment: (p.O - Lo) <= (Hi - Lo) and nbytes <= (Hi - Lo) - (p.O - Lo)
+		off, size := c.Sub(p.O, m.Lo), c.Sub(m.Hi, m.Lo)
+		in := c.And(c.Eq(p.R, m.R), c.Ule(off, size), c.Ule(nbytes, c.Sub(size, off)))
 		if m.Cond != nil {
 			in = c.And(m.Cond, in)
 		}
